@@ -22,7 +22,10 @@ RULE = ("case = generated (declaration, configuration) placed in 2-4 surrounding
         "std alloc iter option result mem marker convert fmt ops slice array primitive str; macros panic unreachable write "
         "vec matches format assert todo unimplemented (expanding to compile_error!); fns drop transmute; optionally "
         "combined with no_implicit_prelude. Oracle: compiles, and every context's transcript equals the plain context's "
-        "and the model's. non-trivial = hostile set non-empty or no_std; distinct by (declaration, configuration, contexts)")
+        "and the model's. In addition a small-scope enumeration compiles every feature subset of size <= 2 (quick) / <= 3 "
+        "(thorough) x every mode on 11 fixed shapes (incl. 18 runs and full 256-variant 8-bit enums) inside a #![no_std] "
+        "crate and inside #![no_implicit_prelude] modules, and every single feature plus the all-features set inside the "
+        "complete hostile scope. non-trivial = hostile set non-empty or no_std; distinct by (declaration, configuration, contexts)")
 ASSUMPTIONS = ["not generated (outside 'named like prelude or core items'): user items named like primitive types, and "
                "user traits with blanket impls that inject same-named methods on foreign types; edition fixed at 2021"]
 
@@ -87,6 +90,50 @@ def cases(draw, tier="quick"):
             "seed": draw(st.integers(0, 2 ** 31))}
 
 
+def fixed_cases(tier):
+    return [{"small_scope": 3 if tier == "thorough" else 2}]
+
+
+def run_small_scope(case):
+    """Every feature subset of size <= k x every mode, on fixed shapes, compiled (check-only, batched) inside a
+    #![no_std] crate, inside #![no_implicit_prelude] modules and (subsets of size 1 and the all-features set) inside the
+    complete hostile scope."""
+    import concurrent.futures
+    out = J.Outcome()
+    hostile_prefix = "".join("    " + it + "\n" for it in hostile_items(all_hostile_unique()))
+    jobs = []
+    for name, r, vals in C.SCOPE_SHAPES + C.SCOPE_SHAPES_EXTRA:
+        spec = C.scope_spec(r, vals)
+        m = M.RefEnum(spec)
+        big = len(vals) > 12
+        cfgs = C.scope_configs(1 if len(vals) > 100 else (2 if big else case["small_scope"]), m.gapless)
+        singles = C.scope_configs(1, m.gapless) + [S.simple_config(E.ALL_FEATURES)]
+        for ctx, kw, use in (("no_std", {"crate_attrs": "#![no_std]\n"}, cfgs),
+                             ("no_implicit_prelude", {"module_prefix": "    #![no_implicit_prelude]\n"}, cfgs),
+                             ("hostile_all", {"module_prefix": hostile_prefix}, singles),
+                             ("hostile_all+no_implicit_prelude", {"module_prefix": "    #![no_implicit_prelude]\n" + hostile_prefix}, singles)):
+            items = [(i, E.enum_item_text(spec, c)) for i, c in enumerate(use)]
+            out.count("small_scope_%s" % ctx, len(items))
+            step = 60 if len(vals) > 100 else 400
+            for b in range(0, len(items), step):
+                jobs.append((name, ctx, spec, use, kw, items[b:b + step]))
+    with concurrent.futures.ThreadPoolExecutor(max_workers=16) as ex:
+        results = list(ex.map(lambda j: (j, C.failing_items(j[5], **j[4])), jobs))
+    for (name, ctx, spec, use, _kw, _items), bad in results:
+        for i, err in bad[:2]:
+            # confirm that the same derive compiles in the plain context: otherwise it is not a scope problem
+            plain_bad = C.failing_items([(0, E.enum_item_text(spec, use[i]))])
+            if plain_bad:
+                continue
+            out.violate("the derive compiles in a plain scope but not in this one (small-scope enumeration)", context=ctx,
+                        shape=name, config=J.cfg_text(use[i]), stderr=err)
+    out.nontrivial = True
+    out.fingerprint = J.fp("small_scope", case["small_scope"])
+    out.sample = {"small_scope_max_features": case["small_scope"], "contexts": ["no_std", "no_implicit_prelude", "hostile_all"],
+                  "shapes": [n for n, _r, _v in C.SCOPE_SHAPES + C.SCOPE_SHAPES_EXTRA]}
+    return out
+
+
 def all_hostile_unique():
     seen = set()
     out = []
@@ -101,6 +148,8 @@ def all_hostile_unique():
 
 
 def run_case(case):
+    if "small_scope" in case:
+        return run_small_scope(case)
     out = J.Outcome()
     spec, cfg = case["spec"], case["cfg"]
     m = M.RefEnum(spec)
